@@ -1,7 +1,7 @@
 """C17 - backward simulation leaves the model intact and respects dependencies (also when aborted by an exception)."""
 from engine.sym import exc_tag
 from model.family import build, sim_kwargs
-from model.observe import Observer, Injected, dump, concrete_sig
+from model.observe import Observer, Injected, InjectedBase, dump, concrete_sig
 from model.stubs import STUB_NOTES
 from props import profiles
 from props.histcore import Sim, diff_dumps, short_key, log_lengths
@@ -35,15 +35,32 @@ def backward(p, ctx):
     spec = p["spec"]
     inj = None
     if p["phase"] is not None:
-        inj = (p["istep"], p["phase"])
+        inj = (p["istep"], p["phase"], p.get("ikind", "exception"))
     with Sim(ctx):
         M = build(spec, p, ctx.symbolic)
         before = structure(M)
         kw = dict(sim_kwargs(M), considering_due_time_of_tail_tasks=bool(p["due"]), reverse_log_information=bool(p["rev"]))
+        if p.get("configure_sub"):
+            # the sub-project task is configured from the saved result of a small project (read_json_file becomes True)
+            from props.jsoncore import JsonIO
+
+            with JsonIO(ctx) as io:
+                S = build({"tasks": [{"w": 2}], "teams": profiles.layout_workers("shared1", 1), "run": {"max_time": 5}}, p, ctx.symbolic)
+                S.project.simulate(max_time=5)
+                sp = io.path("subsrc.json")
+                S.project.write_simple_json(sp)
+                for t in M.tasks:
+                    if type(t).__name__ == "BaseSubProjectTask":
+                        t.file_path = sp
+                        t.set_all_attributes_from_json()
+                        t.set_work_amount_progress_of_unit_step_time(M.project.unit_timedelta)
         obs = Observer(M, inject=inj, want=())
         with obs.installed():
-            ok, r = ctx.call(M.project.backward_simulate, **kw)
-        injected = (not ok) and isinstance(r, Injected)
+            try:
+                ok, r = ctx.call(M.project.backward_simulate, **kw)
+            except InjectedBase as e:
+                ok, r = False, e
+        injected = (not ok) and isinstance(r, (Injected, InjectedBase))
         if not ok and not injected:
             ctx.fail("C17:backward-raised:%s" % exc_tag(r))
         if injected:
@@ -87,6 +104,10 @@ def backward(p, ctx):
         # forward after backward == twin's forward
         okf, rf = ctx.call(M.project.simulate, **sim_kwargs(M))
         Tw = build(spec, p, ctx.symbolic)
+        for t, t0 in zip(Tw.tasks, M.tasks):
+            if type(t).__name__ == "BaseSubProjectTask":
+                t.default_work_amount, t.unit_timedelta = t0.default_work_amount, t0.unit_timedelta
+                t.work_amount_progress_of_unit_step_time = t0.work_amount_progress_of_unit_step_time
         okt, rt = ctx.call(Tw.project.simulate, **sim_kwargs(Tw))
         if okf != okt:
             ctx.fail("C17:forward-after-backward-raised")
@@ -112,6 +133,9 @@ def obligations(tier, seed):
     members.append(("chain-subtask", {"tasks": [{"w": "$w0", "due": "$d0"}, {"w": "$w1", "due": "$d1", "subproject": True}, {"w": "$w2", "due": "$d2"}], "edges": [[0, 1, 0], [1, 2, 0]],
                                       "teams": profiles.layout_workers("shared2", 3), "run": {"max_time": 12}},
                     [["w0", 1, 3], ["w1", 1, 3], ["w2", 1, 2]], {"d0": -1, "d1": -1, "d2": -1}))
+    members.append(("chain-subtask-json", {"tasks": [{"w": "$w0", "due": "$d0"}, {"w": 1, "due": "$d1", "subproject": True}, {"w": "$w2", "due": "$d2"}], "edges": [[0, 1, 0], [1, 2, 0]],
+                                           "teams": profiles.layout_workers("shared2", 3), "run": {"max_time": 12}},
+                    [["w0", 2, 4], ["w2", 1, 2]], {"d0": -1, "d1": -1, "d2": -1, "configure_sub": True}))
     members.append(("fan", {"tasks": [{"w": "$w0", "due": "$d0"}, {"w": "$w1", "due": "$d1"}, {"w": "$w2", "due": "$d2"}, {"w": 1, "due": "$d3"}],
                             "edges": [[0, 1, 0], [0, 2, 0], [0, 3, 0]], "teams": profiles.layout_workers("shared2", 4), "run": {"max_time": 14}},
                     [["w0", 1, 2], ["w1", 1, 2], ["w2", 1, 2], ["d1", 0, 2], ["d2", 0, 2], ["d3", 0, 2]], {"d0": -1}))
@@ -128,13 +152,19 @@ def obligations(tier, seed):
     for mname, spec, params, consts in members:
         for due in (0, 1):
             for rev in (0, 1):
-                for phase in (None, "updated", "allocated", "performed", "recorded"):
+                for phase in (None, "updated", "allocated", "performed", "recorded", "updated!"):
                     if mname == "prod-links" and due == 1:
                         continue
-                    cube = dict(consts, spec=spec, due=due, rev=rev, phase=phase)
+                    ikind = "exception"
+                    if phase == "updated!":
+                        # the same injection point, but with an exception that is not derived from Exception
+                        if mname not in ("chain-FS", "join"):
+                            continue
+                        phase, ikind = "updated", "base"
+                    cube = dict(consts, spec=spec, due=due, rev=rev, phase=phase, ikind=ikind)
                     pr = list(params) + ([["istep", 0, 6 if thorough else 4]] if phase else [])
                     if not phase:
                         cube["istep"] = -1
-                    obs.append({"name": "bwd/%s/due=%d/rev=%d/inject=%s" % (mname, due, rev, phase), "harness": "backward", "cube": cube, "params": pr,
+                    obs.append({"name": "bwd/%s/due=%d/rev=%d/inject=%s%s" % (mname, due, rev, phase, "!" if ikind == "base" else ""), "harness": "backward", "cube": cube, "params": pr,
                                 "timeout": 900 if thorough else 150, "engine": "zsym"})
     return obs
